@@ -15,3 +15,4 @@ import ServlinVerif.Props.C01
 import ServlinVerif.Props.C03
 import ServlinVerif.Props.C02
 import ServlinVerif.Props.C06
+import ServlinVerif.Props.C15
